@@ -1135,6 +1135,12 @@ pub(crate) fn eval_query(ctx: &Context, expr: &Query) -> Result<QueryReply, Quer
                 }
                 Some(val) => val,
             };
+            if val.complexity_score() > commands::MAX_COMPLEXITY {
+                return Err(QueryError::generic(format!(
+                    "<{}> is too complex to factorize",
+                    val.show(ctx)
+                )));
+            }
             let quantities = ctx
                 .registry
                 .quantities
